@@ -59,6 +59,11 @@ def make_case(hist, seed, extra, ties=False):
         for _ in range(int(rng.integers(4, 9))):
             rows.append({"key": [int(rng.integers(1, nent + 1)) for _ in range(4)], "tgt": bool(rng.random() < 0.55)})
             ids.append(len(rows))
+        # one target and one decoy whose entities are theirs alone at every level: every level file of the collection then holds a
+        # target and a decoy (a result file without any row is finding F-03c's business, outside this family's domain)
+        for tg in (True, False):
+            rows.append({"key": [100 + len(rows)] * 4, "tgt": tg})
+            ids.append(len(rows))
         content[(st, v)] = ids
     # every collection keeps targets and decoys (a result file without rows is finding F-03c's business)
     for (st, v), ids in content.items():
@@ -227,10 +232,29 @@ def run_family(ctx, owner, n_model, n_random):
     hs, _ = histories_from_model(ctx.quick)
     # prefer histories with at least two rolls or a drop (the interesting ones), keep a share of the plain ones
     rich = [h for h in hs if sum(o["op"] == "roll" for o in h) >= 2 or any(o["op"] == "drop" for o in h)]
-    pick = [rich[int(i)] for i in rng.permutation(len(rich))[:n_model * 3 // 4]] + [hs[int(i)] for i in rng.permutation(len(hs))[:n_model // 4]]
+    # ... and, always, histories that roll AGAIN with the same root at a base level that is also an output level, after the inputs
+    # changed in between (the tool's own earlier results lie among the files it globs): rendered under every naming scheme in turn
+    def reroll(h):
+        for i in range(len(h)):
+            for k in range(i + 2, len(h)):
+                if (h[i]["op"] == "roll" and h[k]["op"] == "roll" and h[i]["root"] == h[k]["root"] and h[i]["base"] == h[k]["base"]
+                        and h[i]["base"] in ("precursor", "peptide") and any(o["op"] in ("put", "drop") for o in h[i + 1:k])
+                        and any(o["op"] == "put" for o in h[:i])):
+                    return True
+        return False
+    rr = [h for h in hs if reroll(h)]
+    n_rr = max(2 * len(RENDER), n_model // 3)
+    pick = ([rr[int(i)] for i in rng.permutation(len(rr))[:n_rr]] + [rich[int(i)] for i in rng.permutation(len(rich))[:n_model // 2]]
+            + [hs[int(i)] for i in rng.permutation(len(hs))[:n_model // 6]])
+    ctx.cov["rolltool_reroll_histories"] = min(n_rr, len(rr))
     pick += [random_history(rng, int(rng.integers(4, 8))) for _ in range(n_random)]
     extras = [["mod", "prec", "grp"], ["prec"], [], ["mod", "prec"], ["prec", "grp"]]
-    cases = [make_case(h, int(ctx.seed * 100000 + j), extras[j % len(extras)], ties=(j % 5 == 4)) for j, h in enumerate(pick)]
+    cases = [make_case(h, int(ctx.seed * 100000 + j), extras[j % len(extras)], ties=(j % 7 == 6)) for j, h in enumerate(pick)]
+    for j, c in enumerate(cases):
+        c["render"] = ([4, 0, 4, 1, 4, 2, 4, 3][j % 8]) if j < n_rr else j % len(RENDER)     # re-rolls: every second one under the dotted file root
+        if j < n_rr and "prec" not in c["extra"] and any(o["op"] == "roll" and o["base"] == "precursor" for o in c["hist"]):
+            c["extra"] = ["mod", "prec", "grp"]            # a precursor-level re-roll needs the precursor files
+    cases = [dict(make_case(c["hist"], c["seed"], c["extra"], ties=c["ties"]), render=c["render"]) for c in cases]
     run_history(cases[0])
     res = pmap(lambda i: run_history(cases[i]), len(cases), chunk=4)
     traces = []
